@@ -38,6 +38,8 @@ typedef struct vp_iface {
 /* process-wide attributes (the port API has no iface argument for these) */
 typedef struct vp_global {
     uint8_t *icon;  size_t icon_len;  int icon_present;   /* present=0: getter fails */
+    int send_len;                                          /* a successful transmit returns the byte count instead of 0 */
+    size_t mtu_clobber;                                    /* what a FAILING MTU query leaves in its output (0 = untouched) */
     int failrc;                                            /* return code of a failing getter (0 = the default -1) */
     int empty_block;                                       /* an EMPTY icon / name is handed over as a zero-length block (non-NULL) instead of NULL */
     uint8_t *fname; size_t fname_len; int fname_present;
